@@ -124,6 +124,13 @@ func locations(root interface{}, rootSch *yang.Entry, mk func() *gen.G) []locati
 			case e.Kind() == reflect.Slice && e.Len() > 0:
 				// Binary inside a simple union: the bytes are reachable through the interface
 				add("union-binary-bytes", p, func() { bump(e.Index(0)) })
+				if e.Type().Elem().Kind() == reflect.Uint8 && f.CanSet() {
+					// growing the value in place: append writes into whatever spare capacity the
+					// slice was handed out with
+					add("union-binary-append", p, func() {
+						f.Set(reflect.Append(e, reflect.ValueOf(byte(0xEE)), reflect.ValueOf(byte(0xFF))).Convert(e.Type()))
+					})
+				}
 			}
 		case reflect.Slice:
 			if f.IsNil() || f.Len() == 0 {
@@ -131,6 +138,9 @@ func locations(root interface{}, rootSch *yang.Entry, mk func() *gen.G) []locati
 			}
 			if f.Type().Elem().Kind() == reflect.Uint8 {
 				add("binary-bytes", p, func() { bump(f.Index(0)) })
+				if f.CanSet() {
+					add("binary-append", p, func() { f.Set(reflect.Append(f, reflect.ValueOf(byte(0xEE)), reflect.ValueOf(byte(0xFF)))) })
+				}
 				return
 			}
 			for i := 0; i < f.Len(); i++ {
@@ -377,6 +387,22 @@ func c04Exec(c *Case, generate bool) (*Violation, *execStats) {
 			}
 		}
 		sides = []side{{"original", s.root}, {"copy", cp}}
+		if c.Seed%4 == 1 {
+			// DeepCopy once more: the second copy must share nothing with the first either
+			// (pooled or cached intermediate objects would make successive results alias)
+			var cp2 ygot.GoStruct
+			if p := callSUT(func() { cp2, err = ygot.DeepCopy(s.root) }); p != nil {
+				return violation("C04", "panic", "C04:panic:deepcopy", "the second DeepCopy panicked: %v\n%s", p.v, trimStack(p.stack)), st
+			}
+			if err != nil {
+				return violation("C04", "copy-error", "C04:deepcopy-error", "the second DeepCopy of a schema-conforming tree failed: %v", err), st
+			}
+			if deepFingerprint(s, cp2) != deepFingerprint(s, cp) {
+				return violation("C04", "copy-differs", "C04:deepcopy-second-differs", "two successive DeepCopy calls on one tree give different copies"), st
+			}
+			sides = append(sides, side{"second copy", cp2})
+			st.Probes["second_copy"]++
+		}
 	case "merge", "merge-emptymaps", "merge-overwrite":
 		// a and b are two projections of one tree, so they never conflict
 		ra := simrt.NewRng(simrt.Mix(c.Seed, 41))
